@@ -219,7 +219,16 @@ def isV2 (cse : Case) : Bool := cse.descs.any fun d =>
 def handleBBS (req : String) : String :=
   "ok shown=" ++ ",".intercalate (sortStrings (req.splitOn ",").eraseDups)
 
+/-- two descriptors over the same BBS+ credential (format of `c20RunBBS2`): each gets exactly its own leaves -/
+def handleBBS2 (input : String) : String :=
+  match input.splitOn "|" with
+  | [_, r0, r1] =>
+    let leaves (r : String) := ",".intercalate (sortStrings (r.splitOn ",").eraseDups)
+    "ok d0=" ++ leaves r0 ++ ";d1=" ++ leaves r1
+  | _ => "bad-input"
+
 def handle (input : String) : String :=
+  if input.startsWith "bbs2|" then handleBBS2 input else
   if input.startsWith "bbs|" then handleBBS (String.ofList (input.toList.drop 4)) else
   if input.startsWith "sd|" then
     (match input.splitOn "|" with | [_, spec, req] => handleSD spec req | _ => "bad-input") else
@@ -248,6 +257,10 @@ def sublists : List String → List (List String)
       pair in its descriptor map really credMatches, and the verifier accepts it and returns exactly those descriptors;
     * "no credentials" is only reported when no non-empty subset of the matchable descriptors satisfies the requirement -/
 def oracle (input implOut : String) : String :=
+  if input.startsWith "bbs2|" then
+    (let want := handleBBS2 input
+     if implOut == want then implOut
+     else "LIMITED-DISCLOSURE-SHOWS-OTHER-FIELDS-THAN-REQUESTED: expected " ++ want) else
   if input.startsWith "bbs|" then
     (let want := handleBBS (String.ofList (input.toList.drop 4))
      if implOut == want then implOut
